@@ -264,3 +264,22 @@ ADDENDA3 = {
 }
 for _k, _v in ADDENDA3.items():
     CLAIMS[_k]["text"] = CLAIMS[_k]["text"].rstrip() + " " + _v
+
+ADDENDA4 = {
+    "C01": "Round 5: selected values are never filtered on truth; the union form reports falsity only where both operands were evaluated; exists gives one verdict per binding and a false one over an empty domain.",
+    "C02": "Round 5: shares EP-SELECTED.",
+    "C03": "Round 5: the reset walk is computed fresh on every evaluation; a node looks upward only after this evaluation told it its parent.",
+    "C04": "Round 5: the optional conversion states are of classes without a truth value of their own (or tested with `is None`).",
+    "C07": "Round 5: no state shared between translations through defaults or class attributes; every quantifier field evaluation consults is looked at; an equality join has the selected variable on one side.",
+    "C08": "Round 5: the selection table of the alternative is stated over the situations of an else-if output, and the state it asks is maintained for every operand kind; shares CARRY-RESET-REACH.",
+    "C09": "Round 5: no constraint class has a truth value of its own while the quantifier tests the constraint by truth.",
+    "C11": "Round 5: every non-class, non-variable, non-None pattern argument becomes a literal (decision table of the factories).",
+    "C13": "Round 5: the library allocates Symbol instances through the class's own __new__ only.",
+    "C14": "Round 5: nodes leave the instance graph on the purging path only.",
+    "C17": "Round 5: memoised values of the diagram are stored state for the read-only analysis.",
+    "C18": "Round 5: the registered UUID pair is an inverse (constructor gets the stored text and nothing else).",
+    "C19": "Round 5: the default deserialisation hook has no path to a normal return.",
+    "C20": "Round 5: shares the purging-path obligation of SG-COHERENCE.",
+}
+for _k, _v in ADDENDA4.items():
+    CLAIMS[_k]["text"] = CLAIMS[_k]["text"].rstrip() + " " + _v
